@@ -106,7 +106,12 @@ func U64(label string) uint64         { return pop(label, 64) }
 func Int(label string) int            { return int(pop(label, 64)) }
 func Uintptr(label string) uintptr    { return uintptr(pop(label, 64)) }
 func Bool(label string) bool          { return pop(label, 8) == 1 }
-func Choice(label string, n int) int  { return int(pop(label, 8)) }
+func Choice(label string, n int) int {
+	if n <= 1 {
+		return 0
+	}
+	return int(pop(label, 8))
+}
 func Split(label string, x uint64, max int) uint64 { return x }
 
 func Bytes(label string, n int) []byte {
